@@ -118,6 +118,9 @@ Extremes ==
     \cup {G(t, << <<<<9, 9>>, <<3, 3>>>>, <<<<11, 11>>, <<7, 7>>>> >>) : t \in {"MultiLineString", "Polygon"}}
     \cup {G("Polygon", << <<<<9, 9>>, <<11, 9>>, <<11, 11>>, <<9, 11>>>> >>),
           G("MultiPolygon", << <<<<<<1, 9>>, <<3, 3>>, <<7, 1>>>>>>, <<<<<<1, 11>>, <<3, 7>>, <<7, 3>>>>>> >>)}
+    (* ids 12-14: values that a 32-bit float holds exactly (their shortest 64-bit decimal is long, their shortest 32-bit one short) *)
+    \cup {G("Point", <<12, 13>>), G("LineString", << <<14, 12>>, <<3, 13>> >>), G("Polygon", << <<<<12, 12>>, <<13, 14>>, <<14, 3>>>> >>),
+          G("MultiLineString", << <<<<13, 13>>>>, <<<<12, 3>>, <<3, 12>>>> >>), G("MultiPolygon", << <<<<<<14, 14>>, <<12, 13>>>>>> >>), G("MultiPoint", << <<12, 14>> >>)}
 (* C06 only: empty members after a non-empty first member ("at least one vertex in its first member", "arbitrary member counts") *)
 WithEmpties(maxm) ==
     {G(t, PathsK(1, v)) : t \in {"MultiLineString", "Polygon"}, v \in {w \in VecsFrom(2, maxm, {0, 2}) : w[1] > 0}}
